@@ -1,0 +1,72 @@
+// +build verif
+
+package consensus
+
+// Contracts for the verifier in /verif (comment-only; see /verif/DESIGN.md).
+
+/*@
+immutable RaftNode.db, RaftNode.balloon, RaftNode.log, RaftNode.metrics, RaftNode.hasherF by NewRaftNodeWithLogger, NewRaftNode, RaftNode.Close
+
+// ---- C05 / C07: the replay filter ---------------------------------------------------
+// An entry is applied iff its raft index is beyond the last applied one (or nothing
+// was applied yet). The explicit panic (by design) fires only for an entry that
+// should be applied but does not advance the balloon version.
+
+func fsmState.shouldApply
+  props C05 C07
+  requires f != nil
+  may_panic
+  ensures C05,C07/never-twice: s.Index != 0 && f.Index <= s.Index ==> !result
+  ensures C05,C07/applies-fresh: result ==> s.Index == 0 || f.Index > s.Index
+  ensures C05/version-advances: result && f.BalloonVersion > 0 ==> s.BalloonVersion < f.BalloonVersion
+
+// ---- C07: one apply = exactly one write, which carries trees + state + metadata ----------
+
+func RaftNode.applyAdd
+  props C05 C07 C11
+  requires len(hashes) > 0 && state != nil && n.state != nil
+  requires n.balloon != nil && n.balloon.historyTree != nil && n.balloon.hyperTree != nil && !isnil(n.db) && !isnil(n.log) && n.metrics != nil
+  may_panic
+  modifies everything, mutateCalls, lastMutations, lastMetadata
+  ensures C07/exactly-one-write: mutateCalls == old(mutateCalls) + 1
+  ensures C07/state-after-write: n.state == state
+  ensures C07/state-in-the-same-batch: len(lastMutations) >= 1 && lastMutations[len(lastMutations) - 1] != nil && lastMutations[len(lastMutations) - 1].Table == storage.FSMStateTable
+  ensures C05/balloon-advanced: n.balloon.version == old(n.balloon.version) + uint64(len(hashes))
+  ensures result != nil
+
+// Apply panics by design on a command it cannot apply; what is proved is that a
+// command of the shape the proposer produces (C11) is applied without any other panic,
+// writes once if it is fresh, and writes nothing if it was applied before.
+func RaftNode.Apply
+  props C05 C07 C11
+  requires l != nil && len(l.Data) >= 1 && n.state != nil
+  requires n.balloon != nil && n.balloon.historyTree != nil && n.balloon.hyperTree != nil && !isnil(n.db) && !isnil(n.log) && n.metrics != nil
+  may_panic
+  modifies everything, mutateCalls, lastMutations, lastMetadata
+  ensures C07/at-most-one-write: mutateCalls == old(mutateCalls) || mutateCalls == old(mutateCalls) + 1
+  ensures C07/replayed-entry-writes-nothing: old(n.state.Index) != 0 && l.Index <= old(n.state.Index) ==> mutateCalls == old(mutateCalls)
+
+func newCommandFromRaft
+  props C11
+  requires len(data) >= 1
+  ensures result != nil && fresh(result) && result.data == data
+
+func newCommand
+  props C11
+  ensures result != nil && fresh(result) && result.id == t
+
+// decoding yields an arbitrary list (or an error): nothing is assumed about its length
+func command.decode
+  props C11
+  requires len(c.data) >= 1
+  modifies *dyn(out)
+func command.encode
+  modifies c.data
+  ensures isnil(result) ==> len(c.data) >= 1
+
+func encodeMsgPack
+func decodeMsgPack
+  modifies *dyn(out)
+func fsmState.encode
+func VersionMetadata.encode
+@*/
